@@ -125,9 +125,20 @@ func replay(in, out string) {
 			pr := e["params"].(map[string]interface{})
 			var ks int64
 			fmt.Sscan(pr["kseed"].(string), &ks)
-			{ // re-emits both phases (fresh and reloaded)
+			if lay, ok := pr["layout"].(string); ok && lay != "" {
+				runBigLegacyCase(t, newMeta(""), pr["kind"].(string), int(pr["nreq"].(float64)), ks, lay)
+			} else { // re-emits both phases (fresh and reloaded)
 				bc, nq := bigCase(pr["kind"].(string), int(pr["nreq"].(float64)), ks, pr["prop"].(string))
 				runBigCase(t, newMeta(""), rand.New(rand.NewSource(ks+1)), bc, nq, "replay", Ev{"kind": pr["kind"], "nreq": pr["nreq"], "kseed": pr["kseed"], "prop": pr["prop"]})
+			}
+		case "bigfail":
+			// a large case that could not be built or loaded: re-run it from its parameters
+			if pr, ok := e["params"].(map[string]interface{}); ok {
+				if lay, ok := pr["layout"].(string); ok && lay != "" {
+					var ks int64
+					fmt.Sscan(pr["kseed"].(string), &ks)
+					runBigLegacyCase(t, newMeta(""), pr["kind"].(string), int(pr["nreq"].(float64)), ks, lay)
+				}
 			}
 		case "scanbig":
 			pr := e["params"].(map[string]interface{})
